@@ -736,26 +736,47 @@ def graph_entries(repo, ig):
     return out
 
 
-def pair_rule(ig, chk, rule):
-    """the links of a node pair joined by several links are collected regardless of their direction"""
-    coll = [n for n in walk(ig) if isinstance(n, ast.For) and isinstance(resolve_local(ig, n.iter), ast.Call) and last_attr(resolve_local(ig, n.iter)) == "get_links_for_node"
-            and any(last_attr(c) == "append" for c in calls(n))]
-    if not coll:
-        raise ExtractError("_initialize_internal_graph: collection of the links of a multi-link node pair not found")
-    lp = coll[0]
-    li = links_iter(unparse(resolve_local(ig, lp.iter)))
-    flag_all = li is not None and li[2] == "ALL"
-    memb = [n for n in walk(lp) if isinstance(n, ast.If) and any(last_attr(c) == "append" for c in calls(ast.Module(body=n.body, type_ignores=[])))]
-    both = False
-    if memb:
-        t = resolve_local(ig, memb[0].test)
-        txt = unparse(t)
-        both = (isinstance(t, ast.BoolOp) and isinstance(t.op, ast.Or) and "start_node_name" in txt and "end_node_name" in txt) or \
-               (isinstance(t, ast.Compare) and len(t.ops) == 1 and isinstance(t.ops[0], ast.In) and "start_node_name" in unparse(t.comparators[0]) and "end_node_name" in unparse(t.comparators[0]))
-    chk.expect(flag_all and both, rule, "the links of a node pair joined by several links are collected in both directions (a->b and b->a)", loc(ig, lp),
+def pair_rule(repo, ig, chk, rule):
+    """the links of a node pair joined by several links are collected regardless of their direction.
+    Decided by interpreting WNTRSimulator(wn) and _initialize_internal_graph (sa/concrete.py, the mock network family of C09: parallel links
+    drawn the same way, drawn in opposite directions, triples, pumps and valves between junctions) and reading the table of multi-link node
+    pairs the simulator is left with -- found by content (the attribute that maps keys to lists of links), not by name or statement shape."""
+    from ..concrete import ProgramError, Instance
+    from .c09 import make_world, MockWN, link_status_enum, attr_values, MLink, NODES, LINKS
+    LS = link_status_enum(repo)
+    # the scenario network of C09 plus a pair whose FIRST link (in registry order) is drawn towards the node that is numbered first, and a triple
+    links = list(LINKS) + [("PX1", "pipe", "J10", "J9", "Open", 0), ("PX2", "pipe", "J6", "JL", "Closed", 0), ("PX3", "pipe", "JL", "J6", "Open", 0), ("PX4", "pipe", "J6", "JL", "Closed", 1)]
+    wn = MockWN(LS, NODES, links)
+    world, state = make_world(repo, LS)
+    try:
+        sim = world.function(CORE, "WNTRSimulator")(wn)
+        if not isinstance(sim, Instance):
+            raise ExtractError("WNTRSimulator is not a class of %s" % CORE)
+        world.interp.getattr_(sim, "_initialize_internal_graph")()
+    except ProgramError as e:
+        raise ExtractError("_initialize_internal_graph raises on the mock network: %s (line %s)" % (e, e.lineno))
+    tables = [v for v in attr_values(sim, 0) if isinstance(v, dict) and v and all(isinstance(x, (list, tuple)) and x and all(isinstance(l, MLink) for l in x) for x in v.values())]
+    pairs = {k: v for k, v in wn.neighbours().items() if len(v) > 1}          # {frozenset({a, b}): [links]} -- independent of direction
+    if len(tables) != 1:
+        raise ExtractError("_initialize_internal_graph: expected one attribute mapping node pairs to lists of links, found %d" % len(tables))
+    wrong, covered = [], {}
+    for key, lst in tables[0].items():
+        ends = {frozenset((l.start_node_name, l.end_node_name)) for l in lst}
+        if len(ends) != 1 or list(ends)[0] not in pairs:
+            wrong.append("entry %s holds %s, which is not the set of links of one multi-link node pair" % (key, [l.name for l in lst]))
+            continue
+        pr = list(ends)[0]
+        covered[pr] = covered.get(pr, 0) + 1
+        if sorted(l.name for l in lst) != sorted(l.name for l in pairs[pr]):
+            wrong.append("pair %s: collected %s, joined by %s" % (sorted(pr), sorted(l.name for l in lst),
+                                                               ["%s %s->%s" % (l.name, l.start_node_name, l.end_node_name) for l in pairs[pr]]))
+    for pr in pairs:
+        if covered.get(pr, 0) != 1:
+            wrong.append("pair %s joined by %s has %d entries" % (sorted(pr), [l.name for l in pairs[pr]], covered.get(pr, 0)))
+    chk.expect(not wrong, rule, "the links of a node pair joined by several links are collected in both directions (a->b and b->a)", loc(ig),
                "a parallel link drawn the other way round must share the pair's graph entry: if it is left out, closing its twin marks the pair disconnected although "
-               "the reversed link is open, and connected junctions behind it are reported with zero demand", expected="get_links_for_node(node) [ALL] and start == other or end == other",
-               found="flag=%r test=%s" % (li[2] if li else None, unparse(memb[0].test) if memb else None))
+               "the reversed link is open, and connected junctions behind it are reported with zero demand; evaluated on a mock network with %d multi-link pairs" % len(pairs),
+               expected="one entry per multi-link node pair holding all its links", found="; ".join(wrong[:3]) or None)
 
 
 def run(repo, chk):
@@ -1208,7 +1229,7 @@ def run(repo, chk):
     # (status -> entry on every path, both directions) and from the collection of parallel links
     ig_ = repo.func(CORE, "WNTRSimulator._initialize_internal_graph")
     chk.fn(ig_)
-    pair_rule(ig_, chk, "R-C01-6")
+    pair_rule(repo, ig_, chk, "R-C01-6")
     ents = graph_entries(repo, ig_)
     if not ents:
         raise AnchorError("_initialize_internal_graph: status encoding not found (no sparse matrix built from (data, (rows, cols)))")
